@@ -35,7 +35,7 @@ fn sui_line(y: i64, first: bool) -> String {
 }
 
 pub fn run(ctx: &Ctx) -> usize {
-  let years: Vec<i64> = if ctx.quick() {
+  let years: Vec<i64> = if false {
     let mut v: Vec<i64> = vec![27, 28, 236, 237, 241, 242, 1644, 1645, 1646, 1959, 1960, 1961, 1984, 2017, 2020, 2023, 2033, 2034, 7013, 8000, 9997, 9998];
     let mut rng = ctx.rng(401);
     for _ in 0..600 {
